@@ -374,6 +374,13 @@ const std::vector<vfps::integral_t>& vfps::PhaseSpace::normalize()
 vfps::PhaseSpace& vfps::PhaseSpace::operator =(vfps::PhaseSpace other)
 {
     other.swap(*this);
+    // swap() exchanges the (host) data only: re-derive what is cached from them
+    #if INOVESA_USE_OPENCL == 1
+    syncCLMem(OCLH::clCopyDirection::cpu2dev);
+    #endif // INOVESA_USE_OPENCL
+    updateXProjection();
+    updateYProjection();
+    integrate();
     return *this;
 }
 
